@@ -44,7 +44,7 @@ ASSUMPTIONS = [
     "for accepted foreign payloads one decode-encode pass must reach a fixed point that decodes to the same value",
 ]
 MUST_REACH = {"serializer_keys_covered": 180, "int_raw_checks": 100000, "byte_payload_checks": 1000,
-              "fuzz_accepted": 50, "literal_checks": 10000, "block_api_checks": 500, "tz_covered": 3,
+              "fuzz_accepted": 50, "literal_checks": 10000, "block_api_checks": 500, "block_member_assignments": 50, "block_pretty_assignments": 100, "tz_covered": 3,
               "negative_raws_on_signed_flag_fields": 10, "context_values": 20}
 
 
@@ -253,6 +253,33 @@ def check_int_key(ctx, rng, key, ser, var):
         if gen_spec.canon(v2) != gen_spec.canon(direct):
             ctx.violation("block-cache-stale", "Block.deserialize_var returned a value for a raw value that was replaced",
                           {"key": list(key), "raw_first": raw, "raw_now": raw2, "got": repr(v2)[:200]})
+        # the same replacement through the other assignment forms: an enum / flag member, and Pretty(value)
+        import enum as _enum
+        from hippolyzer.lib.base.message.message import Pretty
+        if isinstance(direct, (_enum.IntEnum, _enum.IntFlag)):
+            block[vname] = raw
+            block.deserialize_var(vname)                       # fill the cache with the old value
+            block[vname] = direct                              # assign the member object
+            v3 = block.deserialize_var(vname)
+            ctx.count("block_member_assignments")
+            if gen_spec.canon(v3) != gen_spec.canon(direct) or block[vname] != int(direct):
+                ctx.violation("block-cache-stale:member-assignment", "after assigning an enum/flag member Block.deserialize_var "
+                              "still returned the value of the replaced raw", {"key": list(key), "raw_first": raw,
+                                                                                "assigned": repr(direct)[:100], "got": repr(v3)[:100]})
+        if not is_date:
+            try:
+                block[vname] = raw
+                block.deserialize_var(vname)
+                block[vname] = Pretty(direct)
+                v4 = block.deserialize_var(vname)
+                ctx.count("block_pretty_assignments")
+                if gen_spec.canon(v4) != gen_spec.canon(direct) or (block[vname] != raw2 and not (signed_flag and raw2 < 0)):
+                    ctx.violation("block-cache-stale:pretty-assignment", "after assigning Pretty(value) the block does not hold "
+                                  "that value", {"key": list(key), "raw_first": raw, "raw_now": raw2, "got": repr(v4)[:100],
+                                                 "var": repr(block[vname])[:60]})
+            except Exception as e:
+                ctx.violation("block-pretty-assignment-raises", "assigning Pretty(value) of a decoded value raised",
+                              {"key": list(key), "value": repr(direct)[:100], "exc": repr(e)[:200]})
         try:
             block.serialize_var(vname, v1)
         except Exception as e:
